@@ -31,6 +31,24 @@ SPECIAL = [
     'CC(C)(C)C(C)(C)C', 'C(C(C(C)C)C)C', 'C1CC2CC1CC2', 'C1CC23CC1CC2C3', 'C=1CC=1', 'C=1CC1', 'C1CC=1', 'C#1CCCCCCC#1',
     'N1CC1', 'C1C(F)C1', 'C1CC(F)1', 'C(F)1CC1', 'C1CC(=O)1', 'C-C', 'C-C=C-C', 'C1-C-C-1', 'C(-F)-Cl', 'C.C', 'C.C.C',
     'CC.CC', '[Na+].[Na+].[O-]S([O-])(=O)=O',
+    # atoms one below / at / one above their capacity through explicit H, bonds and charge
+    '[CH4]', '[CH4]C', '[CH3]C', '[CH3](C)C', '[CH2](C)(C)C', '[CH3](C)(C)C', '[NH3]', '[NH3]C', '[NH4]C', '[NH2](C)C',
+    '[OH2]', '[OH2]C', '[OH1]C', '[OH1](C)C', '[FH1]', '[FH1]C', '[SH6]', '[SH6]C', '[SH5]C', '[PH5]', '[PH5]C', '[PH4]C',
+    'C(C)(C)(C)(C)C', 'N(C)(C)(C)C', '[N+](C)(C)(C)(C)C', 'O(C)(C)C', '[O+](C)(C)C', '[O+](C)(C)(C)C', '[O-](C)C',
+    'F(C)C', 'Cl(C)C', 'C=C(=C)C', 'C#C=C', 'N#C', 'N(=O)=O', 'N(=O)(=O)C', 'S(=O)(=O)(=O)=O', 'S(=O)(=O)(C)(C)C',
+    'P(C)(C)(C)(C)(C)C', '[BH4-]', '[BH3-]C', 'B(C)(C)(C)C', '[B-](C)(C)(C)(C)C', '[C-](C)(C)C', '[C-](C)(C)(C)C',
+    '[C+](C)(C)C', '[C+](C)(C)(C)C', '[N-](C)C', '[N-](C)(C)C', '[S+](C)(C)(C)(C)(C)C', '[Fe](C)(C)(C)(C)(C)(C)(C)(C)C',
+    '[Si](C)(C)(C)(C)(C)(C)(C)(C)C', '[Mg](C)C', '[H]C', '[H][H]', '[H](C)C', '[He]', '[CH2]=[CH2]', '[13CH4]C', '[2H][CH3]',
+    # aromatic systems with odd rings, fused / bridged / cage systems
+    'c1ccc2cccc2cc1', 'c1cc2cccccc2c1', 'c1ccc2c(c1)-c1cccc3cccc-2c13', 'c1cc2ccc3cccc4ccc(c1)c2c34',
+    'c1cc2ccc3ccc4ccc5ccc1c1c2c3c4c51', 'c1ccc2c(c1)ccc1ccccc12', 'c1cc2cc3ccc4cc5ccc6cc1c1c2c3c4c5c61',
+    'c12c3c4c5c1c1c6c7c2c2c8c3c3c9c4c4c%10c5c5c1c1c6c6c%11c7c2c2c7c8c3c3c8c9c4c4c9c%10c5c5c1c1c6c6c%11c2c2c7c3c3c8c4c4c9c5c1c1c6c2c3c41',
+    'c1cc2c3c(c1)ccc3ccc2', 'c1ccc2c3c1cccc3cc2', 'C1=Cc2cccc3cccc1c23', 'c1cc2cccc3c2c(c1)cc3', 'c1ccc2cc3ccccc3cc2c1',
+    'c1ccc2c(c1)c1cccc3c1c2ccc3', 'c1cc2ccc3cccc4ccc(c1)c2c34', 'c1c2ccccc2cc2ccccc12', 'c1ccc-2cccc-2c1',
+    'c1ccc2c(c1)-c1ccccc1-2', 'c1ccc2c(c1)-c1ccccc-21', 'c1ccc-2c(c1)-c1ccccc12', 'c1cc-2ccc1-c1ccc-2cc1',
+    'c1ccc2c(c1)n1cccc1-2', 'c1ccc(cc1)-c1cccc-1', 'c1cccc2c1-c1ccccc1C2', 'c1ccccc1-c1ccccc1-c1ccccc1',
+    'c1cc[n+]2ccccc2c1', 'c1ccn2cccc2c1', 'c1cnc2n1cccc2', 'c1ccc2occc2c1', 'c1ccc2sccc2c1', 'c1ccc2[nH]cnc2c1',
+    'c1ccc2ncncc2c1', 'n1c2ccccc2nc2ccccc12', 'c1cc2ccc1CC2', 'c1cc2ccc1CCc1ccc(cc1)CC2',
 ]
 
 
